@@ -15,6 +15,52 @@ fn ob<T: ToString>(o: Option<T>) -> String {
     }
 }
 
+struct ScriptedSink {
+    modes: Vec<char>,
+    calls: usize,
+    taken: usize,
+}
+impl std::io::Write for ScriptedSink {
+    fn write(&mut self, buf: &[u8]) -> std::io::Result<usize> {
+        let m = *self.modes.get(self.calls).unwrap_or(&'A');
+        self.calls += 1;
+        let n = match m {
+            'E' => return Err(std::io::Error::new(std::io::ErrorKind::Other, "scripted failure")),
+            'Z' => 0,
+            'H' => std::cmp::max(1, buf.len() / 2),
+            _ => buf.len(),
+        };
+        self.taken += n;
+        Ok(n)
+    }
+    fn flush(&mut self) -> std::io::Result<()> {
+        Ok(())
+    }
+}
+impl std::io::Seek for ScriptedSink {
+    fn seek(&mut self, _pos: std::io::SeekFrom) -> std::io::Result<u64> {
+        Ok(0)
+    }
+}
+/// a workbook whose package is below (small) or well above (big) the 8 KiB file buffer
+fn sample_book(big: bool) -> umya_spreadsheet::Spreadsheet {
+    let mut book = umya_spreadsheet::new_file();
+    let ws = book.get_sheet_by_name_mut("Sheet1").unwrap();
+    ws.get_cell_mut((1, 1)).set_value_string("x");
+    if big {
+        let mut x: u64 = 88172645463325252;
+        for r in 1..400u32 {
+            for c in 1..6u32 {
+                x ^= x << 13;
+                x ^= x >> 7;
+                x ^= x << 17;
+                ws.get_cell_mut((c, r)).set_value_string(format!("{:x}", x));
+            }
+        }
+    }
+    book
+}
+
 fn dump_cells(ws: &umya_spreadsheet::Worksheet) -> String {
     let mut v: Vec<String> = ws
         .get_cell_collection()
@@ -227,6 +273,142 @@ pub fn run(p: &[String]) -> Vec<String> {
                 None => vec![hex("<dropped>")],
             }
         }
+        // ---- C13
+        "fsize_save" => {
+            // kind dir big : save into dir/out.<ext> (pre-existing with content "OLD"); the caller sets RLIMIT_FSIZE
+            let (kind, dir, big) = (unhex(&p[1]), unhex(&p[2]), b(&p[3]));
+            let book = sample_book(big);
+            let ext = if kind == "csv" { "csv" } else { "xlsx" };
+            let dest = std::path::Path::new(&dir).join(format!("out.{}", ext));
+            let r = match kind.as_str() {
+                "xlsx" => umya_spreadsheet::writer::xlsx::write(&book, &dest),
+                "xlsx_light" => umya_spreadsheet::writer::xlsx::write_light(&book, &dest),
+                "csv" => umya_spreadsheet::writer::csv::write(&book, &dest, None),
+                "xlsx_password" => umya_spreadsheet::writer::xlsx::write_with_password(&book, &dest, "pw"),
+                "xlsx_password_light" => umya_spreadsheet::writer::xlsx::write_with_password_light(&book, &dest, "pw"),
+                _ => panic!("kind"),
+            };
+            vec![if r.is_ok() { "Ok".to_string() } else { "Err".to_string() }]
+        }
+        "package_size" => {
+            let (kind, big) = (unhex(&p[1]), b(&p[2]));
+            let book = sample_book(big);
+            let mut v: Vec<u8> = Vec::new();
+            match kind.as_str() {
+                "xlsx" => umya_spreadsheet::writer::xlsx::write_writer(&book, &mut v).unwrap(),
+                "xlsx_light" => umya_spreadsheet::writer::xlsx::write_writer_light(&book, &mut v).unwrap(),
+                "xlsx_password" | "xlsx_password_light" => {
+                    let d = std::env::temp_dir().join(format!("umya-size-{}.xlsx", std::process::id()));
+                    umya_spreadsheet::writer::xlsx::write_with_password(&book, &d, "pw").unwrap();
+                    v = std::fs::read(&d).unwrap();
+                    let _ = std::fs::remove_file(&d);
+                }
+                _ => {
+                    let mut c = std::io::Cursor::new(Vec::new());
+                    umya_spreadsheet::writer::csv::write_writer(&book, &mut c, &umya_spreadsheet::structs::CsvWriterOption::default()).unwrap();
+                    v = c.into_inner();
+                }
+            }
+            vec![v.len().to_string()]
+        }
+        "sink_save" => {
+            // kind modes : per write() call A = all, H = half, Z = Ok(0), E = error
+            let (kind, modes) = (unhex(&p[1]), unhex(&p[2]));
+            let book = sample_book(false);
+            let mut sink = ScriptedSink { modes: modes.chars().collect(), calls: 0, taken: 0 };
+            let r = match kind.as_str() {
+                "xlsx" => umya_spreadsheet::writer::xlsx::write_writer(&book, &mut sink),
+                "xlsx_light" => umya_spreadsheet::writer::xlsx::write_writer_light(&book, &mut sink),
+                "csv" => umya_spreadsheet::writer::csv::write_writer(&book, &mut sink, &umya_spreadsheet::structs::CsvWriterOption::default()),
+                _ => panic!("kind"),
+            };
+            let mut full: Vec<u8> = Vec::new();
+            let total = match kind.as_str() {
+                "csv" => 3usize,
+                _ => { let _ = umya_spreadsheet::writer::xlsx::write_writer(&book, &mut full); 0 }
+            };
+            let _ = total;
+            // an Ok result must mean that the sink accepted as many bytes as a save into memory produces (+- the few bytes zip timestamps vary)
+            let good = match (&r, kind.as_str()) {
+                (Ok(_), "csv") => sink.taken >= 3,
+                (Ok(_), _) => sink.taken + 64 >= full.len(),
+                (Err(_), _) => true,
+            };
+            vec![if good { "good".to_string() } else { "bad".to_string() }, if r.is_ok() { "Ok".to_string() } else { "Err".to_string() }, sink.taken.to_string()]
+        }
+        // ---- C14
+        "password_key" => {
+            let salt: Vec<u8> = (0..unhex(&p[2]).len() / 2).map(|i| u8::from_str_radix(&unhex(&p[2])[2 * i..2 * i + 2], 16).unwrap()).collect();
+            let k = umya_spreadsheet::helper::crypt::verif_convert_password_to_key(&unhex(&p[1]), "SHA512", &salt, &(u(&p[3]) as usize), &256, &[0x14, 0x6e, 0x0b, 0xe7, 0xab, 0xac, 0xd0, 0xd6]);
+            vec![k.iter().map(|b| format!("{:02x}", b)).collect::<String>()]
+        }
+        "encrypt_decrypt" => {
+            // size password dir : the real encrypt(), twice, opened by the independent decryptor
+            let (size, pw, dir) = (u(&p[1]) as usize, unhex(&p[2]), unhex(&p[3]));
+            let data: Vec<u8> = (0..size).map(|i| (i * 31 + 7) as u8).collect();
+            let mut out = vec![];
+            let mut randoms: Vec<Vec<Vec<u8>>> = vec![];
+            for k in 0..2 {
+                let path = std::path::Path::new(&dir).join(format!("enc{}.xlsx", k));
+                umya_spreadsheet::helper::crypt::encrypt(&path, &data, &pw);
+                match crate::agile::decrypt(&path, &pw) {
+                    Ok((ver, mac, declared, plain, rnd)) => {
+                        out.push(format!("verifier={} hmac={} length={} plain={}", ver, mac, declared == size as u64, plain == data));
+                        randoms.push(rnd);
+                    }
+                    Err(e) => out.push(format!("decrypt error: {}", e)),
+                }
+                if k == 0 {
+                    let wrong = format!("{}x", pw);
+                    match crate::agile::decrypt(&path, &wrong) {
+                        Ok((ver, _, _, _, _)) => out.push(format!("wrong_password_verifier={}", ver)),
+                        Err(e) => out.push(format!("wrong_password_verifier=false ({})", e)),
+                    }
+                }
+            }
+            let fresh = randoms.len() == 2 && randoms[0].iter().zip(randoms[1].iter()).all(|(a, b2)| a != b2);
+            out.push(format!("fresh={}", fresh));
+            out.iter().map(|s| hex(s)).collect()
+        }
+        // ---- C15
+        "password_hash" => {
+            // password salt(hex text) spin
+            let salt: Vec<u8> = (0..unhex(&p[2]).len() / 2).map(|i| u8::from_str_radix(&unhex(&p[2])[2 * i..2 * i + 2], 16).unwrap()).collect();
+            let h = umya_spreadsheet::helper::crypt::verif_convert_password_to_hash(&unhex(&p[1]), "SHA-512", &salt, &(u(&p[3]) as usize));
+            vec![h.iter().map(|b| format!("{:02x}", b)).collect::<String>()]
+        }
+        "protect" => {
+            // kind password : public API, legacy attributes present before
+            let (kind, pw) = (unhex(&p[1]), unhex(&p[2]));
+            if kind == "sheet" {
+                let mut sp = umya_spreadsheet::SheetProtection::default();
+                sp.set_password_raw("CAFE");
+                sp.set_password(&pw);
+                let salt1 = sp.get_salt_value().to_string();
+                let out = vec![hex(sp.get_algorithm_name()), hex(&salt1), hex(&sp.get_spin_count().to_string()), hex(sp.get_hash_value()), hex(sp.get_password_raw()), hex("")];
+                sp.set_password(&pw);
+                let mut out = out;
+                out.push(hex(sp.get_salt_value()));
+                out
+            } else {
+                let mut wp = umya_spreadsheet::WorkbookProtection::default();
+                wp.set_workbook_password_raw("CAFE");
+                wp.set_revisions_password_raw("BEEF");
+                if kind == "workbook" {
+                    wp.set_workbook_password(&pw);
+                    let mut out = vec![hex(wp.get_workbook_algorithm_name()), hex(wp.get_workbook_salt_value()), hex(&wp.get_workbook_spin_count().to_string()), hex(wp.get_workbook_hash_value()), hex(wp.get_workbook_password_raw()), hex(wp.get_revisions_password_raw())];
+                    wp.set_workbook_password(&pw);
+                    out.push(hex(wp.get_workbook_salt_value()));
+                    out
+                } else {
+                    wp.set_revisions_password(&pw);
+                    let mut out = vec![hex(wp.get_revisions_algorithm_name()), hex(wp.get_revisions_salt_value()), hex(&wp.get_revisions_spin_count().to_string()), hex(wp.get_revisions_hash_value()), hex(wp.get_revisions_password_raw()), hex(wp.get_workbook_password_raw())];
+                    wp.set_revisions_password(&pw);
+                    out.push(hex(wp.get_revisions_salt_value()));
+                    out
+                }
+            }
+        }
         // ---- C18
         "convert_date" => {
             let v: Vec<i32> = p[1..7].iter().map(|x| x.parse::<i32>().unwrap()).collect();
@@ -244,6 +426,60 @@ pub fn run(p: &[String]) -> Vec<String> {
             let n = p[1].parse::<f64>().unwrap();
             let dt = umya_spreadsheet::helper::date::excel_to_date_time_object(&n, None);
             vec![dt.year().to_string(), dt.month().to_string(), dt.day().to_string(), dt.hour().to_string(), dt.minute().to_string(), dt.second().to_string()]
+        }
+        "scan_dates" => {
+            // mode lo hi [y m d]: native search for a concrete input on which the date kernels deviate from the civil-calendar oracle
+            use chrono::{Datelike, Timelike};
+            use umya_spreadsheet::helper::date::*;
+            fn dfc(y: i64, m: i64, d: i64) -> i64 {
+                let y = if m <= 2 { y - 1 } else { y };
+                let era = if y >= 0 { y } else { y - 399 } / 400;
+                let yoe = y - era * 400;
+                let mp = (m + 9) % 12;
+                let doy = (153 * mp + 2) / 5 + d - 1;
+                era * 146097 + yoe * 365 + yoe / 4 - yoe / 100 + doy - 719468
+            }
+            fn dim(y: i32, m: i32) -> i32 {
+                match m { 1 | 3 | 5 | 7 | 8 | 10 | 12 => 31, 4 | 6 | 9 | 11 => 30, _ => if (y % 4 == 0 && y % 100 != 0) || y % 400 == 0 { 29 } else { 28 } }
+            }
+            let mode = unhex(&p[1]);
+            let (lo, hi) = (p[2].parse::<i32>().unwrap(), p[3].parse::<i32>().unwrap());
+            match mode.as_str() {
+                "to_serial" => {
+                    for y in lo..=hi { for m in 1..=12 { for d in 1..=dim(y, m) {
+                        let exp = dfc(y as i64, m as i64, d as i64) + 25569 - if (y, m) < (1900, 3) { 1 } else { 0 };
+                        if convert_date(y, m, d, 0, 0, 0) != exp as f64 { return vec![format!("{} {} {}", y, m, d)]; }
+                    } } }
+                }
+                "from_serial" => {
+                    for n in lo..=hi {
+                        if n == 60 { continue; }
+                        let dt = excel_to_date_time_object(&(n as f64), None);
+                        let back = dfc(dt.year() as i64, dt.month() as i64, dt.day() as i64) + 25569;
+                        let exp = if n < 61 { n as i64 + 1 } else { n as i64 };
+                        if back != exp || dt.hour() != 0 || dt.minute() != 0 || dt.second() != 0 { return vec![format!("{}", n)]; }
+                    }
+                }
+                "roundtrip" | "edges" | "monotone" => {
+                    let (y, m, d) = (p[4].parse::<i32>().unwrap(), p[5].parse::<i32>().unwrap(), p[6].parse::<i32>().unwrap());
+                    for h in lo..=hi { for mi in 0..60 { for s in 0..60 {
+                        if mode == "edges" && !((mi == 0 || mi == 59) && (s == 0 || s == 1 || s == 59)) { continue; }
+                        let serial = convert_date(y, m, d, h, mi, s);
+                        if mode == "monotone" {
+                            let day = (dfc(y as i64, m as i64, d as i64) + 25569 - if (y, m) < (1900, 3) { 1 } else { 0 }) as f64;
+                            let bad = !(serial >= day && serial < day + 1.0) || (s < 59 && !(serial < convert_date(y, m, d, h, mi, s + 1)));
+                            if bad { return vec![format!("{} {} {}", h, mi, s)]; }
+                            continue;
+                        }
+                        let dt = excel_to_date_time_object(&serial, None);
+                        if (dt.year(), dt.month() as i32, dt.day() as i32, dt.hour() as i32, dt.minute() as i32, dt.second() as i32) != (y, m, d, h, mi, s) {
+                            return vec![format!("{} {} {}", h, mi, s)];
+                        }
+                    } } }
+                }
+                _ => panic!("mode"),
+            }
+            vec!["none".to_string()]
         }
         // ---- C19
         "straight" => {
